@@ -8,7 +8,7 @@ for x in "$@"; do
   /venv/bin/python $SRC/demo$K.py > $WT.clean.log 2>&1; C=$?
   if ! git apply $SRC/mut$K.diff; then echo "PATCH DOES NOT APPLY" > $OUT; cd /; git -C /repo worktree remove --force $WT; continue; fi
   /venv/bin/python $SRC/demo$K.py > $WT.patched.log 2>&1; P=$?
-  /venv/bin/python -m pytest -q -p no:cacheprovider --timeout=900 --continue-on-collection-errors -n 7 --junitxml=$WT.junit.xml > $WT.pytest.log 2>&1
+  /venv/bin/python -m pytest -q -p no:cacheprovider --timeout=900 --continue-on-collection-errors -n 14 --junitxml=$WT.junit.xml > $WT.pytest.log 2>&1
   python3 /verif/tools/compare_baseline.py $WT.junit.xml > $WT.cmp 2>&1
   BADFILES=$(grep "^BAD" $WT.cmp | awk '{print $2}' | sed 's/::.*//' | sed 's/\./\//g' | sed 's/$/.py/' | sort -u | tr '\n' ' ')
   RERUN=""
